@@ -473,3 +473,55 @@ fn c16_hex_decode_any6() {
   kani::cover!(r.is_ok(), "some 6-byte string decodes");
   std::mem::forget(r);
 }
+
+//@ props: C22, C16
+//@ tier: thorough
+//@ timeout: 2700
+//@ funcs: api::reader::char_prefix
+//@ symbolic: every well-formed UTF-8 string of exactly 6 bytes; requested prefix length 0..7
+//@ bounds: 6 bytes, len <= 7
+//@ oracle: no panic; the result is a prefix ending on a character boundary that holds min(len, chars) characters
+#[kani::proof]
+#[kani::unwind(9)]
+fn c22_char_prefix_spec_6() {
+  let b: [u8; 6] = kani::any();
+  kani::assume(utf8_ok(&b));
+  let len: usize = kani::any();
+  kani::assume(len <= 7);
+  let s = as_str(&b);
+  let p = char_prefix(s, len);
+  let mut total = 0usize;
+  let mut in_p = 0usize;
+  let mut i = 0;
+  while i < 6 {
+    if b[i] & 0xC0 != 0x80 {
+      total += 1;
+      if i < p.len() {
+        in_p += 1;
+      }
+    }
+    i += 1;
+  }
+  assert!(p.len() <= 6 && (p.is_empty() || p.as_ptr() == s.as_ptr()), "C22: char_prefix is not a prefix");
+  assert!(p.len() == 6 || b[p.len()] & 0xC0 != 0x80, "C22: prefix ends inside a character");
+  let want = if len < total { len } else { total };
+  assert!(in_p == want, "C22: char_prefix does not hold min(len, chars) characters");
+  kani::cover!(total == 2 && len == 1 && p.len() == 4, "prefix of one 4-byte character");
+  kani::cover!(total == 3 && len == 2, "two of three characters");
+}
+
+//@ like: c22_levenshtein_one_symbolic_char
+//@ tier: thorough
+//@ timeout: 2700
+//@ symbolic: one character (any ASCII byte) of the term "abc" at position 1; candidates "abc" (max_edits 2), "bc" (max_edits 1), "" (max_edits 3)
+//@ bounds: 3-character term with ONE symbolic character, three further concrete candidates
+#[kani::proof]
+#[kani::unwind(6)]
+#[kani::stub(<core::str::Chars as core::iter::Iterator>::next, ascii_chars_next)]
+#[kani::stub(<core::str::Chars as core::iter::Iterator>::count, ascii_chars_count)]
+fn c22_levenshtein_one_symbolic_char_more() {
+  lev_one_symbolic::<1>("abc", 2);
+  lev_one_symbolic::<1>("bc", 1);
+  lev_one_symbolic::<1>("", 3);
+  kani::cover!(true, "all candidate terms executed");
+}
